@@ -252,7 +252,8 @@ class C15(Check):
 
 
 # ------------------------------------------------------------------------------------------------ C16
-DEFECTS = ('not_a_class', 'no_node_base', 'no_process', 'unannotated_param', 'generic_not_rebound',
+DEFECTS = ('not_a_class', 'no_node_base', 'no_process', 'unannotated_param', 'unannotated_param_with_default',
+           'generic_not_rebound',
            'rec_dest_without_protocol', 'rec_start_without_additional_data')
 
 
@@ -261,7 +262,7 @@ def defect_applicable(program, defect, target):
     n = idx[target]
     inp = S.input_id(program)
     generic = bool(n.get('generic')) and n['params'] and target != inp and not n.get('additional_data')
-    if defect == 'unannotated_param':
+    if defect in ('unannotated_param', 'unannotated_param_with_default'):
         # build_node() hides the signature of a generic base behind (*args, **kwargs): not visible to the builder
         return not generic
     if defect == 'generic_not_rebound':
@@ -283,6 +284,7 @@ def expected_errors(defect):
         'no_node_base': (BE.IncorrectBaseClass,),
         'no_process': (NE.RunMethodExpectedError,),
         'unannotated_param': (BE.UndefinedAnnotation, BE.UndefinedParamAnnotation),
+        'unannotated_param_with_default': (BE.UndefinedAnnotation, BE.UndefinedParamAnnotation),
         'generic_not_rebound': (BE.NonRedefinedGenericTypeError,),
         'rec_dest_without_protocol': (BE.IncorrectRecurrentMixinClass,),
         'rec_start_without_additional_data': (BE.IncorrectParamsRecurrentNode,),
@@ -304,8 +306,8 @@ def build_from_source(src, program, name):
 class C16(Check):
     id = 'C16'
     level = 'fault_enumeration'
-    rule = ('case = a valid generated program (must build) and EVERY applicable single-defect mutation of it: 7 defect '
-            'kinds (not a class, no node base, no callable process, un-annotated parameter, generic input never rebound, '
+    rule = ('case = a valid generated program (must build) and EVERY applicable single-defect mutation of it: 8 defect '
+            'kinds (not a class, no node base, no callable process, un-annotated parameter with / without a default, generic input never rebound, '
             'recurrent destination without the recurrent protocol, recurrent start without additional_data) x every '
             'node reachable from the output, enumerated; the mutated declarations must raise exactly the error class '
             'paired with the defect and return no DAG; non-trivial = the defective node is reached through a non-Input '
